@@ -106,7 +106,7 @@ impl MainDevice {
 // the same contract for the OTHER structure these statements could have - one loop that addresses a position and at once
 // creates its SubDevice: there the ordering obligation cannot hold (position idx + 1 has not been addressed when device idx is
 // read out), which is exactly what the property forbids
-/*@fragment file=src/maindevice.rs impl="impl<'sto> MainDevice<'sto>" fn=init from="for subdevice_idx in 0..num_subdevices" to=".map_err(|_| Error::Capacity(Item::SubDevice))?; }" name=init_address_and_create alt=merged loops=1 generics="<const MAX_SUBDEVICES: usize>" qual="pub async" sig="&self, num_subdevices: u16, subdevices: &mut Deque<MAX_SUBDEVICES> -> (r: Result<(), Error>)" tail="Ok(())" subst="subdevices .push_back=>subdevices.push_back" props=C09
+/*@fragment file=src/maindevice.rs impl="impl<'sto> MainDevice<'sto>" fn=init from="let mut subdevices = heapless::Deque" to=".map_err(|_| Error::Capacity(Item::SubDevice))?; }" name=init_address_and_create alt=merged loops=1 generics="<const MAX_SUBDEVICES: usize>" qual="pub async" sig="&self, num_subdevices: u16, subdevices: &mut Deque<MAX_SUBDEVICES> -> (r: Result<(), Error>)" tail="Ok(())" subst="subdevices .push_back=>subdevices.push_back@@let mut subdevices = heapless::Deque::<SubDevice, MAX_SUBDEVICES>::new();=>" props=C09
     requires old(subdevices).v@.len() == 0
 @loop 0
     invariant
